@@ -159,6 +159,55 @@ Theorem c09_cache_empty_marker_refuted :
 Proof. exact cache_marker_refuted_lemma. Qed.
 Print Assumptions c09_cache_empty_marker_refuted.
 
+(* The per-file directive cache (after /repo 4817eed): initialised from a full run, updated for a re-linted file,
+   cleared on Delete, it answers like the directives of one run over the current files (names distinct); and
+   handing it to the aggregate-only run makes that run ignore exactly what such a run ignores. *)
+Theorem c09_directive_cache_refines :
+  forall (File : Type) (fname : File -> str) (fcomments : File -> list comment),
+  let repr := dirs_represent File fname fcomments in
+  (forall fs, repr (carry (results_of File fname fcomments fs)) fs) /\
+  (forall g fs f', NoDup (map fname fs) -> repr g fs ->
+     repr (gm_set g (fname f') (file_dirs File fcomments f')) (replace_file File fname f' fs)) /\
+  (forall g fs n, NoDup (map fname fs) -> repr g fs -> repr (gm_delete g n) (remove_file File fname n fs)) /\
+  (forall g fs v, repr g fs ->
+     agg_ignored (carry_overridden [] g) v = agg_ignored (carry (results_of File fname fcomments fs)) v).
+Proof.
+  intros File fname fcomments repr. split; [|split; [|split]].
+  - apply dir_cache_init.
+  - intros g fs f' H1 H2. apply dir_cache_set; assumption.
+  - intros g fs n H1 H2. apply dir_cache_delete; assumption.
+  - intros g fs v H. apply dir_cache_used; exact H.
+Qed.
+Print Assumptions c09_directive_cache_refines.
+
+(* One edit in the language server, end to end: re-lint the edited file f' with the collect query, SetFileAggregates
+   and SetFileIgnoreDirectives, then report from the cached aggregates and directives -- equals (as multisets) the
+   aggregate violations of ONE Lint call over the updated workspace, inline ignores included. *)
+Theorem c09_lsp_step_eq_one_shot :
+  forall (File Agg : Type) (fname : File -> str) (fcomments : File -> list comment) (brules ckeys : list str)
+         (B_aggregate : str -> File -> list Agg) (C_aggregate : str -> File -> option (list Agg))
+         (B_report C_report : str -> list Agg -> list violation) (src ikey : Agg -> str),
+  (forall r a b, Permutation a b -> Permutation (B_report r a) (B_report r b)) ->
+  (forall k a b, Permutation a b -> Permutation (C_report k a) (C_report k b)) ->
+  forall (c : cache Agg) (g : gomap) (fs : list File) (f' : File),
+  let fs' := replace_file File fname f' fs in
+  NoDup (map fname fs) ->
+  represents File Agg fname brules ckeys B_aggregate C_aggregate c fs ->
+  dirs_represent File fname fcomments g fs ->
+  well_sourced File Agg fname brules ckeys B_aggregate C_aggregate src [f'] ->
+  well_keyed File Agg brules ckeys B_aggregate C_aggregate ikey fs' ->
+  no_bare_marker File Agg brules ckeys B_aggregate C_aggregate fs' ->
+  (2 <= length fs')%nat ->
+  Permutation
+    (lint_aggregate_violations Agg brules ckeys B_report C_report [] 0
+       (Some (get_file_aggregates Agg ikey
+                (set_file_aggregates Agg src (fname f')
+                   (collect File Agg brules ckeys B_aggregate C_aggregate true [f']) c)))
+       (carry_overridden [] (gm_set g (fname f') (file_dirs File fcomments f'))))
+    (one_shot File Agg fname fcomments brules ckeys B_aggregate C_aggregate B_report C_report fs').
+Proof. exact lsp_step_eq_one_shot. Qed.
+Print Assumptions c09_lsp_step_eq_one_shot.
+
 (* Rename moves a file's entries to the new key; they keep naming the old file until it is re-collected *)
 Theorem c09_cache_rename :
   forall (Agg : Type) (c : cache Agg) (old new : str),
